@@ -184,6 +184,8 @@ class Translator:
             return self.ex(inner)
         if ck == "IntegralCast":
             return self.cast(qt(n), qt(inner), self.ex(inner))
+        if ck == "NullToPointer":
+            return self.call("__new_int_array", self.const(0))
         if ck == "IntegralToBoolean":
             return ast.Compare(left=self.ex(inner), ops=[ast.NotEq()], comparators=[self.const(0)])
         if ck in ("IntegralToFloating", "FloatingCast", "FloatingToIntegral", "FloatingComplexCast", "FloatingRealToComplex"):
@@ -202,7 +204,16 @@ class Translator:
     ex_CXXFunctionalCastExpr = ex_CXXStaticCastExpr
 
     def ex_InitListExpr(self, n):
+        if not n.get("inner"):      # int{} : value-initialisation
+            if int_kind(qt(n)) is None:
+                raise Unsupported(f"empty initialiser list of type {qt(n)}")
+            return self.const(0)
         return self.ex(n["inner"][0])
+
+    def ex_CXXScalarValueInitExpr(self, n):
+        if int_kind(qt(n)) is None:
+            raise Unsupported(f"value initialisation of type {qt(n)}")
+        return self.const(0)
 
     def cast(self, to_t, from_t, e):
         tk, sk = int_kind(to_t), int_kind(from_t)
@@ -329,6 +340,16 @@ class Translator:
             return self.call(self.contract["calls"][nm], *[self.ex(a) for a in args])
         raise Unsupported(f"call to {nm} has no contract")
 
+    def ex_CXXNewExpr(self, n):
+        # new int[size]: a fresh array of `size` unspecified ints
+        if n.get("isArray") and qt(n).replace("const ", "").strip() in ("int *",) and n.get("inner"):
+            return self.call("__new_int_array", self.ex(n["inner"][0]))
+        raise Unsupported(f"new-expression of type {qt(n)}")
+
+    def ex_CXXNullPtrLiteralExpr(self, n):
+        # a null pointer has no elements: every subscript through it fails its bounds obligation
+        return self.call("__new_int_array", self.const(0))
+
     def ex_CXXDefaultArgExpr(self, n):
         raise Unsupported("default argument")
 
@@ -436,6 +457,13 @@ class Translator:
             else:
                 raise Unsupported(f"size of the floating vector {nm} is not visible")
             return out
+        if tt.startswith("Vector<") and inits and self._find(inits[0], "CXXConstructExpr") is not None:
+            # a floating Vector: only its length is kept (an int array of that length stands for it, never read)
+            init = self._find(inits[0], "CXXConstructExpr")
+            if len(init.get("inner", [])) == 1 and int_kind(qt(init["inner"][0])) is not None:
+                self.dropped += 1
+                return self.index_obligations(d) + [ast.Assign(targets=[ast.Name(id=nm, ctx=ast.Store())],
+                                                               value=self.call("__new_int_array", self.ex(init["inner"][0])))]
         if is_float_type(t) or "std::string" in t or "basic_string" in t or "TComplex" in t:
             self.dropped += 1
             return self.index_obligations(d)
